@@ -1202,6 +1202,7 @@ func CheckC13(c *Ctx) {
 	c.errorOrientation("backtest/error-orientation", "backtest")
 	c.workerLoop("backtest/jobs", site+".Run", info, runFi.Decl)
 	c.defaultWhenEmpty("backtest/protocol", site+".Run", info, runFi.Decl, "Strategies")
+	c.defaultWhenEmpty("backtest/protocol", site+".Run", info, runFi.Decl, "Names")
 	c.writeArguments(wFi, site)
 	c.resultFields()
 	// races
@@ -2466,6 +2467,8 @@ func (c *Ctx) writeArguments(worker *load.FuncInfo, site string) {
 						switch {
 						case d1 != d2 || !isCall || !strings.HasSuffix(calleeName(info, dc), "helper.Duplicate") || len(dc.Args) != 2:
 							why = "the snapshots written and the snapshots evaluated are not branches of one helper.Duplicate"
+						case func() bool { n, isC := constInt(info, dc.Args[1]); return !isC || n != 2 }():
+							why = "the snapshots are duplicated " + exprString(dc.Args[1]) + " times for two consumers: a branch nobody reads blocks the duplicate, and with it the evaluation"
 						case !c1 || !c2 || k1 == k2:
 							why = "the snapshots written and the snapshots evaluated are the same branch of the duplicate: both consumers compete for one stream"
 						default:
